@@ -200,10 +200,38 @@ def main():
             top = h.Module(name="ShapeZero%d" % k)
             top.add(G(v=0.0 if k == 13 else -0.0, n=2)(), name="a")
             return top
+        if k == 15:
+            # a generator call whose parameter object is allocated - when earlier designs are discarded (drop) - at an address
+            # that a parameter object of some earlier, dead call had: anything remembered per address must not leak into its name
+            from decimal import Decimal
+            from hdl21.prefix import Prefix, Prefixed
+            from hdl21.generators import Series, SeriesParams
+            dead = set()
+            if drop:
+                for i in range(300):
+                    c = h.Mos(w=Prefixed(number=Decimal(i + 1), prefix=Prefix(-6)), l=Prefixed(number=Decimal("150"), prefix=Prefix(-9)))
+                    c.name  # (reads the hashed name of its parameter object)
+                    dead.add(id(c.params))
+                    del c
+            unit = h.Mos(w=Prefixed(number=Decimal("3"), prefix=Prefix(-6)), l=Prefixed(number=Decimal("150"), prefix=Prefix(-9)))
+            held = []
+            p = SeriesParams(unit=unit, nser=3, conns=("d", "s"))
+            tries = 0
+            while dead and id(p) not in dead and tries < 4000:
+                held.append(p)
+                p = SeriesParams(unit=unit, nser=3, conns=("d", "s"))
+                tries += 1
+            if dead and id(p) in dead:
+                stats["param_objects_on_reused_addresses"] = stats.get("param_objects_on_reused_addresses", 0) + 1
+            top = h.Module(name="ShapeParamChurn")
+            top.d, top.g, top.s, top.b = h.Signals(4)
+            top.add(Series(p)(d=top.d, g=top.g, s=top.s, b=top.b), name="st")
+            del held
+            return top
         raise ValueError(k)
 
     shape_state = {}
-    NSHAPES = 15
+    NSHAPES = 16
     stats = {}
     items = job["items"]
     drop = job.get("drop", False)  # earlier designs are discarded and collected, so later objects re-use their addresses
